@@ -13,7 +13,52 @@ pub struct C19;
 pub const C_MYERS: u64 = 4;
 pub const C_PATIENCE: u64 = 6;
 
+/// mode 5: items are fixed-width byte records sharing a long common head (hashing them is
+/// costly and lazy hashers collide); mode 0: u32 items
 fn check_case(c: &SeqCase, obs: &mut Obs) -> Verdict {
+    if c.mode == 5 {
+        return check_records(c, obs);
+    }
+    check_u32(c, obs)
+}
+
+fn check_records(c: &SeqCase, obs: &mut Obs) -> Verdict {
+    let alg = c.alg % 2;
+    let rec = |x: &u32| counting::CntS(format!("        fixed-width record, common head: {:010}", x).into_bytes());
+    let oc: Vec<counting::CntS> = c.old.iter().map(rec).collect();
+    let nc: Vec<counting::CntS> = c.new.iter().map(rec).collect();
+    let (n, m) = (oc.len() as u64, nc.len() as u64);
+    counting::reset();
+    counting::set_limit(64 * C_PATIENCE * (n + m + 1) * (n + m + 1));
+    let r = guard(|| {
+        let mut rec = Recorder::new();
+        algorithms::diff_slices(alg_of(alg), &mut rec, &oc, &nc).unwrap();
+        rec.events
+    });
+    let cmp = counting::total();
+    counting::reset();
+    let ev = match r {
+        Ok(e) => e,
+        Err(p) => return Verdict::Fail(format!("{} over byte-record items: {} (after {} comparisons, N={}, M={})", alg_name(alg), p, cmp, n, m)),
+    };
+    let (d, i, _) = events_cost(&ev);
+    let dd = (d + i) as u64;
+    let cc = if alg == 0 { C_MYERS } else { C_PATIENCE };
+    let bound = cc * (n + m + 1) * (dd + 1);
+    obs.metric("byte-record items: comparisons / ((N+M+1)(D+1))", cmp as f64 / ((n + m + 1) * (dd + 1)) as f64);
+    if cmp > bound {
+        return Verdict::Fail(format!(
+            "{} over fixed-width byte-record items: {} element comparisons for N={}, M={}, D={}: more than {}*(N+M+1)*(D+1) = {}",
+            alg_name(alg), cmp, n, m, dd, cc, bound
+        ));
+    }
+    obs.nontrivial = n + m >= 200 && dd <= (n + m) / 20;
+    obs.class(alg_name(alg));
+    obs.class("items are 50-byte records with a common 40-byte head");
+    Verdict::Pass
+}
+
+fn check_u32(c: &SeqCase, obs: &mut Obs) -> Verdict {
     let alg = c.alg % 2; // 0 Myers, 1 Patience
     let oc: Vec<Cnt> = c.old.iter().map(|x| Cnt(*x)).collect();
     let nc: Vec<Cnt> = c.new.iter().map(|x| Cnt(*x)).collect();
@@ -52,6 +97,7 @@ fn check_case(c: &SeqCase, obs: &mut Obs) -> Verdict {
     obs.class_if(n + m >= 200 && dd <= (n + m) / 20, "near-identical, N+M >= 200");
     obs.class_if(dd >= (n + m) / 2 && n + m > 20, "mostly unrelated");
     obs.class_if(n + m >= 2000, "N+M >= 2000");
+    obs.class_if(n + m >= 50_000, "N+M >= 50000");
     Verdict::Pass
 }
 
@@ -87,7 +133,16 @@ fn strat(tier: Tier) -> BoxedStrategy<SeqCase> {
         // the shared small mixture
         2 => seq_pair(60),
     ];
-    (0u8..2, fam).prop_map(|(alg, (old, new))| SeqCase::full(alg, old, new)).boxed()
+    (0u8..2, fam, 0u8..10)
+        .prop_map(|(alg, (old, new), m)| {
+            let mut c = SeqCase::full(alg, old, new);
+            // 1 case in 10 (of moderate size) uses byte-record items
+            if m == 0 && c.old.len() + c.new.len() <= 1200 {
+                c.mode = 5;
+            }
+            c
+        })
+        .boxed()
 }
 
 fn apply_raw_edits(a: &[u32], es: &[(u8, u16, u8, u32)]) -> Vec<u32> {
@@ -121,17 +176,63 @@ fn apply_raw_edits(a: &[u32], es: &[(u8, u16, u8, u32)]) -> Vec<u32> {
     v
 }
 
+/// fixed large near-identical inputs (equal runs of tens of thousands of items)
+fn enum_large(tier: Tier, f: &mut dyn FnMut(SeqCase) -> bool) {
+    let sizes: &[usize] = if tier == Tier::Thorough { &[20_000, 60_000, 150_000] } else { &[20_000, 60_000] };
+    for &n in sizes {
+        for alg in 0..2u8 {
+            // all distinct, one replaced item
+            let a: Vec<u32> = (0..n as u32).collect();
+            let mut b = a.clone();
+            b[n / 2] = 9_000_000;
+            if !f(SeqCase::full(alg, a.clone(), b)) {
+                return;
+            }
+            // small alphabet, three edits, long common prefix and suffix
+            let a2 = lcg_seq(n as u64, n, 4);
+            let mut b2 = a2.clone();
+            b2.remove(n / 3);
+            b2.insert(n / 2, 7);
+            b2[n - n / 5] = 8;
+            if !f(SeqCase::full(alg, a2, b2)) {
+                return;
+            }
+        }
+    }
+    // records: 2500 distinct fixed-width records, one edit
+    for alg in 0..2u8 {
+        let a: Vec<u32> = (0..2500u32).collect();
+        let mut b = a.clone();
+        b[1234] = 777_777;
+        let mut c = SeqCase::full(alg, a, b);
+        c.mode = 5;
+        if !f(c) {
+            return;
+        }
+    }
+}
+
 impl Prop for C19 {
     type Case = SeqCase;
     const ID: &'static str = "C19";
     fn rule() -> String {
-        "cases = (Myers|Patience, old, new) over an element type whose PartialEq counts calls; families: near-identical (0-6 edits incl. block moves) up to 300 (quick) / 3000 (thorough) items over alphabets {2,4,26,10^3,10^5}, periodic with shift, reversed, truncated, unrelated, and the shared small mixture. Oracle: comparisons <= c*(N+M+1)*(D+1) with D = size of the reported script, c = 4 (Myers) / 6 (Patience); the counter aborts the run at 64x the largest possible bound so a quadratic or non-terminating change ends as a measured violation. The maximum measured ratio is reported under metrics_max. Non-trivial = N+M >= 200 and D <= (N+M)/20 (the near-linear claim); distinct = distinct serialized case.".into()
+        "cases = (Myers|Patience, old, new) over an element type whose PartialEq counts calls; a stage of fixed inputs of 20 000-150 000 near-identical items; 1 random case in 10 uses 50-byte record items sharing a 40-byte head (so hashing/equality of long keys is exercised); families: near-identical (0-6 edits incl. block moves) up to 300 (quick) / 3000 (thorough) items over alphabets {2,4,26,10^3,10^5}, periodic with shift, reversed, truncated, unrelated, and the shared small mixture. Oracle: comparisons <= c*(N+M+1)*(D+1) with D = size of the reported script, c = 4 (Myers) / 6 (Patience); the counter aborts the run at 64x the largest possible bound so a quadratic or non-terminating change ends as a measured violation. The maximum measured ratio is reported under metrics_max. Non-trivial = N+M >= 200 and D <= (N+M)/20 (the near-linear claim); distinct = distinct serialized case.".into()
     }
     fn assumptions() -> Vec<String> {
         vec!["the constants are calibrated (measured maxima about 0.7 Myers / 1.6 Patience), not derived: the check decides 'within c x of the documented O((N+M)D)'".into()]
     }
     fn stages(tier: Tier) -> Vec<Stage<SeqCase>> {
-        vec![Stage { name: "random", kind: StageKind::Random { strategy: strat, cases: tier.pick(200_000, 400_000) } }]
+        vec![
+            Stage {
+                name: "large",
+                kind: StageKind::Enumerate {
+                    scope: "fixed near-identical inputs of 20 000 and 60 000 (thorough: 150 000) items (all distinct with one replaced item; 4-letter alphabet with three edits) and 2500 distinct 50-byte records with one edit, Myers and Patience".into(),
+                    exhaustive: true,
+                    gen: enum_large,
+                },
+            },
+            Stage { name: "random", kind: StageKind::Random { strategy: strat, cases: tier.pick(200_000, 400_000) } },
+        ]
     }
     fn check(case: &SeqCase, obs: &mut Obs) -> Verdict {
         check_case(case, obs)
